@@ -322,6 +322,22 @@ func check(src string, ci int, ss *session) (vs []engine.Violation, outcome stri
 	tree.Reset()
 	o := xpx.RunMachine(m, tree.At(contexts[ci]...))
 	got := observed(tree)
+	if ci == 0 {
+		// (on one of the four context positions - a non-root one) the same run with the context's debug listing on asks the data tree the very same questions
+		// (a fresh machine: the listing is a diagnostic aid and must not take part in the evaluation)
+		used := strings.Join(tree.CallStrings(), " ; ")
+		if dm, derr := expr.NewExprMachine(src, mapFn); derr == nil {
+			tree.Reset()
+			do := xpx.RunMachineDebug(dm, tree.At(contexts[ci]...), true)
+			dbg := strings.Join(tree.CallStrings(), " ; ")
+			tree.Reset()
+			xpx.RunMachine(m, tree.At(contexts[ci]...)) // (leave the tree's record as the plain run made it)
+			if dbg != used || do.String() != o.String() {
+				mk("debug-option-changes-requests", fmt.Sprintf("debug off: %s -> %s ; debug on: %s -> %s", used, o, dbg, do))
+				return vs, "debug-differs", true
+			}
+		}
+	}
 	defer func() { ss.prior = append(ss.prior, ci) }()
 	if len(ss.prior) > 0 && ci == len(contexts)-1 {
 		// differential: the machine that has run before must send the data tree the very
